@@ -39,11 +39,15 @@ type caStub struct {
 	NCerts   int      // certificates per request (default 1)
 	Comments []string // comments returned per call (nil: none)
 	ValidAt  uint64   // base time for issued certificates
+	events   *[]string
 }
 
 func (s *caStub) Sign(ctx context.Context, req *proto.SSHCertificateSigningRequest) ([]ssh.PublicKey, []string, error) {
 	idx := len(s.Reqs)
 	s.Reqs = append(s.Reqs, req)
+	if sc := s.Script[idx]; sc != "" && s.events != nil {
+		*s.events = append(*s.events, "ca:"+sc)
+	}
 	switch s.Script[idx] {
 	case "err":
 		s.Issued = append(s.Issued, nil)
@@ -89,6 +93,13 @@ type stubHandler struct {
 	GenCalls  int
 	Keys      []*stubAgentKey
 	log       *[]string
+	events    *[]string
+}
+
+func (h *stubHandler) fire(what string) {
+	if h.events != nil {
+		*h.events = append(*h.events, "stub:"+what)
+	}
 }
 
 type stubAgentKey struct {
@@ -101,6 +112,7 @@ type stubAgentKey struct {
 
 func (k *stubAgentKey) CSRs() []*proto.SSHCertificateSigningRequest {
 	if k.h.script["CSRs"] == "panic" {
+		k.h.fire("CSRs:panic")
 		panic("stub handler: CSRs panic")
 	}
 	return k.csrs
@@ -110,8 +122,10 @@ func (k *stubAgentKey) AddCertsToAgent(certs []ssh.PublicKey, comments []string)
 	*k.h.log = append(*k.h.log, fmt.Sprintf("%s.AddCertsToAgent[%d](%d certs)", k.h.name, k.idx, len(certs)))
 	switch k.h.script["AddCertsToAgent"] {
 	case "panic":
+		k.h.fire("AddCertsToAgent:panic")
 		panic("stub handler: AddCertsToAgent panic")
 	case "err":
+		k.h.fire("AddCertsToAgent:err")
 		return errors.New("stub handler: AddCertsToAgent error")
 	}
 	k.Added = append(k.Added, certs)
@@ -121,6 +135,7 @@ func (k *stubAgentKey) AddCertsToAgent(certs []ssh.PublicKey, comments []string)
 
 func (h *stubHandler) Name() string {
 	if h.script["Name"] == "panic" {
+		h.fire("Name:panic")
 		panic("stub handler: Name panic")
 	}
 	return h.name
@@ -131,6 +146,7 @@ func (h *stubHandler) Authenticate(p *csr.ReqParam) error {
 	*h.log = append(*h.log, h.name+".Authenticate")
 	switch h.script["Authenticate"] {
 	case "panic":
+		h.fire("Authenticate:panic")
 		panic("stub handler: Authenticate panic")
 	}
 	if !h.accept {
@@ -142,6 +158,9 @@ func (h *stubHandler) Authenticate(p *csr.ReqParam) error {
 func (h *stubHandler) Generate(p *csr.ReqParam) ([]csr.AgentKey, error) {
 	h.GenCalls++
 	*h.log = append(*h.log, h.name+".Generate")
+	if sc := h.script["Generate"]; sc != "" {
+		h.fire("Generate:" + sc)
+	}
 	switch h.script["Generate"] {
 	case "panic":
 		panic("stub handler: Generate panic")
@@ -245,6 +264,7 @@ type genv struct {
 	handler gensign.Handler
 	hErr    error
 	log     []string
+	events  []string // fault events in the order they fired
 	preAdds int
 }
 
@@ -330,6 +350,19 @@ func newEnv(o envOpt) *genv {
 		e.ua.Ring.Add(agentAdded(otherKey(), "someone else's key"))
 	}
 	e.preAdds = len(e.ua.Ring.AddLog)
+	e.ca.events = &e.events
+	e.ua.OnRequest = func(idx int, frame []byte, fault string) {
+		if fault == "" {
+			return
+		}
+		phase := "addcerts"
+		if len(frame) > 0 && frame[0] == 13 {
+			phase = "auth"
+		} else if len(e.ca.Reqs) == 0 {
+			phase = "generate"
+		}
+		e.events = append(e.events, "agent:"+phase+":"+fault)
+	}
 	e.conn = e.ua.Conn("forwarded-agent")
 	hc := map[string]any{"cert_validity_sec": o.Validity}
 	if !o.NoPubKeyDir {
